@@ -703,6 +703,8 @@ func RunAs(prop string) func(*gen.Ctx) error {
 				return err
 			}
 			concurrentFresh(c, gen.NewRand(c.Seed+31), meta)
+			nws := websocketBeside(meta)
+			meta.Notes = append(meta.Notes, fmt.Sprintf("%d websocket sessions (both subprotocols) in which a query is answered beside a running stream on the same connection: the frames under each id must be those the operation gets alone on a fresh server", nws))
 			nh := apqFreshOracle(meta)
 			meta.Notes = append(meta.Notes, fmt.Sprintf("%d request histories (every history up to length 3 over text / text+own hash / text+another text's hash / hash only x two texts) against a server with the APQ extension: a request that carries its text must be answered as by a fresh server", nh))
 			k := 300
